@@ -187,6 +187,7 @@ def cell_eq(a, b):
         if abs(a) == float('inf') or abs(b) == float('inf'): return a == b
         return Fraction(a) == Fraction(b)           # exact, also for numpy floats (np.float64(2**53) == 2**53+1 is True in numpy)
     if is_num(a) or is_num(b): return False
+    if isinstance(a, datetime.datetime) and isinstance(b, datetime.datetime): return a == b      # a pd.Timestamp equals the datetime of the same instant
     if type(a) is not type(b): return False
     return a == b
 def key_eq(k1, k2): return len(k1) == len(k2) and all(cell_eq(a, b) for a, b in zip(k1, k2))
@@ -449,6 +450,8 @@ POOLS = {
     'inf': [['inf', 1], ['inf', -1], ['inf', 1], ['nan', 1], ['nan', 2], ['i', 0], ['f', 3], ['i', 2**53], ['i', -5]],
     'infmixed': [['inf', 1], ['inf', -1], ['nan', 1], None, ['i', 1], ['s', 'a'], ['d', D1], ['x', (1e15 + 0.5).hex()]],
     'ts': [['ts', [D1, 1]], ['ts', [D1, 2]], ['ts', [D1, 999]], ['ts', [D1 + 1, 0]], ['ts', [D1, 0]], None, ['ts', [D2, 500]]],
+    # the SAME whole-microsecond instants as pd.Timestamp and as datetime.datetime, mixed within a column and across the operands: equal keys
+    'tsmix': [['ts', [D1, 0]], ['d', D1], ['ts', [D3, 0]], ['d', D3], ['ts', [D2, 0]], ['d', D2], None, ['d', D4]],
     'nan': [['nan', 1], ['nan', 2], ['nan', 3], ['i', 1], ['f', 2], ['i', 0]],
     'nanmixed': [['nan', 1], ['nan', 2], ['nan', 3], None, ['i', 1], ['f', 2], ['s', 'a'], ['d', D1]],
 }
@@ -466,7 +469,7 @@ def rand_case(rng, stream, kind=None):
     nx = rng.choice([0, 1, 2, 3, 3, 4, 5, 6]); ny = rng.choice([0, 1, 2, 3, 3, 4, 5, 6])
     nk = rng.choice([0, 1, 1, 1, 2, 2, 3])
     knames = ['a', 'b', 'c'][:nk]
-    pools = [rng.choice(['nan', 'nanmixed'] if (nan and k == 0) else ['int', 'num', 'num', 'str', 'date', 'mixed', 'mixed', 'none', 'big', 'bigmixed', 'frac', 'inf', 'infmixed', 'ts']) for k in range(nk)]
+    pools = [rng.choice(['nan', 'nanmixed'] if (nan and k == 0) else ['int', 'num', 'num', 'str', 'date', 'mixed', 'mixed', 'none', 'big', 'bigmixed', 'frac', 'inf', 'infmixed', 'ts', 'tsmix', 'tsmix']) for k in range(nk)]
     x = [[k, rand_col(rng, p, nx)] for k, p in zip(knames, pools)]
     y = [[k, rand_col(rng, p, ny)] for k, p in zip(knames, pools)]
     # other columns: v is shared (mode matters), d only left, e only right
